@@ -5,25 +5,27 @@ H = 'c08_stats.c'
 
 def jobs(tier):
     q = [
-        dict(name='n3e2', harness=H, entry='main_c08', defines=dict(NN=3, NE=2, NS=1, NM=1, TP_HI=0, SP_HI=1), timeout=900,
+        dict(name='n3e2', harness=H, entry='main_c08', defines=dict(NN=3, NE=2, NS=0, NM=0, TP_HI=0, SP_HI=1), timeout=900,
              require_tags={'end': 1, 'accept': 1}),
-        dict(name='fixed-table', harness=H, entry='main_c08', defines=dict(NN=4, NE=4, NS=2, NM=2, FIXED_TABLE=1), timeout=900,
+        dict(name='fixed-table', harness=H, entry='main_c08', defines=dict(NN=4, NE=4, NS=1, NM=2, FIXED_TABLE=1), timeout=900,
              require_tags={'end': 1, 'accept': 1}),
     ]
     if tier == 'quick':
         return q
     return q + [
-        dict(name='n4e3', harness=H, entry='main_c08', defines=dict(NN=4, NE=3, NS=1, NM=1, TP_HI=0, SP_HI=0), timeout=3000,
+        dict(name='n3e2-sites', harness=H, entry='main_c08', defines=dict(NN=3, NE=2, NS=1, NM=1, TP_HI=0, SP_HI=0), timeout=3000,
+             allow_incomplete=True, require_tags={'end': 1, 'accept': 1}),
+        dict(name='n4e3', harness=H, entry='main_c08', defines=dict(NN=4, NE=3, NS=0, NM=0, TP_HI=0, SP_HI=0), timeout=3000,
              allow_incomplete=True, require_tags={'end': 1, 'accept': 1}),
     ]
 
 
 BOUNDS = {
-    'quick': 'tsk_treeseq_general_stat, state_dim = output_dim = 1, identity summary function, weights = indicator of every '
-             'subset of the samples, branch / node / site mode, polarised on/off, span_normalise off, windows [0,L] and [0,b,L] '
-             'with b a solver variable; every valid 3-node 2-edge tree sequence class with one site (symbolic position) and one '
-             'mutation (alleles "C" or "AT" over ancestral "A"), and the fixed 5-tree table with 2 sites and 2 mutations',
-    'thorough': 'plus 4-node 3-edge classes (time-boxed)',
+    'quick': 'tsk_treeseq_general_stat, state_dim = output_dim = 1, identity summary function, weights = indicator of two sample '
+             'sets (all samples / all but the first), branch / node / site mode, polarised on/off, span_normalise off, windows [0,L] and [0,b,L] '
+             'with b a solver variable; every valid 3-node 2-edge tree sequence class (branch and node mode, 2 sample profiles), and the fixed 5-tree table '
+             'with one site at a symbolic position and 2 mutations (alleles "C" or "AT" over ancestral "A"; all three modes)',
+    'thorough': 'plus site mode on all 3-node classes and branch/node mode on 4-node 3-edge classes (time-boxed)',
 }
 OUTSIDE = ['every statistic that divides or uses non-integer weights: span_normalise=True, diversity, Fst, Tajimas_D, f-statistics, '
            'LD, relatedness, divergence matrix, coalescence counts ... (floating point is their subject)',
